@@ -35,6 +35,7 @@ def run(out, tier, seed):
     if summary is None:
         raise vlib.ToolError("sweep did not finish (a query crashed or hung: see C10)")
     n = monitor(out, rpath, cases)
+    del ws_common.LEX_FAILS[:]      # a lexer failure on a seed is C10's to report
     out.cov["traces_validated_against_impl"] += n
     out.cov["evaluations"] += summary["calls"]
     out.cov["distinct_nontrivial"] += n
